@@ -362,6 +362,13 @@ def _merged_path_gates(F, fn, target, defs, have, limit=96):
         for a in per_path:
             al |= a[key][0]
         g = dict(per_path[0][key][1])
+        # a "condition" that admits every value is none
+        if g["kind"] == "bool" and al >= {True, False}:
+            continue
+        if g["kind"] == "enum":
+            names = enum_names(F, (g.get("enum") or "")) or {}
+            if names and al >= set(map(str, names.values())):
+                continue
         g["allowed"] = sorted(al)
         g["merged"] = True
         out.append(g)
